@@ -2125,6 +2125,10 @@ class PyCdlib:
                                                 None)
 
         seen_dir_extents = {abs_file_entry_extent}
+        # Names that share one File Entry are hard links.  Files with data are
+        # recognized as such through the extent of their data; files without
+        # data have no data extent, so remember them by File Entry extent.
+        empty_file_entry_to_inode = {}  # type: Dict[int, inode.Inode]
         udf_file_entries = collections.deque([self.udf_root])
         while udf_file_entries:
             udf_file_entry = udf_file_entries.popleft()
@@ -2192,6 +2196,8 @@ class PyCdlib:
                         else:
                             if next_entry.get_data_length() > 0 and abs_file_data_extent in extent_to_inode:
                                 ino = extent_to_inode[abs_file_data_extent]
+                            elif next_entry.get_data_length() == 0 and abs_file_entry_extent in empty_file_entry_to_inode:
+                                ino = empty_file_entry_to_inode[abs_file_entry_extent]
                             else:
                                 ino = inode.Inode()
                                 ino.parse(abs_file_data_extent,
@@ -2199,6 +2205,8 @@ class PyCdlib:
                                           self._cdfp, self.logical_block_size)
                                 if next_entry.get_data_length() > 0:
                                     extent_to_inode[abs_file_data_extent] = ino
+                                else:
+                                    empty_file_entry_to_inode[abs_file_entry_extent] = ino
                                 self.inodes.append(ino)
 
                             ino.linked_records.append((next_entry, False))
